@@ -65,3 +65,29 @@ Proof.
   intros base E batch written Hs Hi. split; [apply visible_base|].
   exists base, E, batch, written. split; [apply c_base|]. split; [apply N.le_refl|]. split; [exact Hs|]. split; [exact Hi | reflexivity].
 Qed.
+
+(* ---- the change poller (PollProto.v): a cached instance whose data layer is advanced by somebody else;
+   requests read the epoch record through the cache; the poller flushes, re-reads and signals.  With
+   the directory's cache lock (requests shared, poller exclusive) a request that starts after the
+   poller has signalled epoch e is answered from an epoch >= e, for every schedule; a request that
+   does not take the lock (get_epoch_hash before the fix) refutes it. *)
+From Akd Require Import PollProto.
+Close Scope N_scope.
+
+Theorem C13_after_signal_at_least_that_new : forall e0 n sched,
+  let s := qrun true (qinit e0 n) sched in
+  forall i lo v, nth_error (q_reqs s) i = Some (QDone lo v) -> lo <= v.
+Proof. exact after_signal_at_least_that_new. Qed.
+Print Assumptions C13_after_signal_at_least_that_new.
+
+Theorem C13_cache_at_least_signalled : forall e0 n sched,
+  let s := qrun true (qinit e0 n) sched in
+  forall v, q_cache s = Some v -> q_signalled s <= v.
+Proof. exact cache_at_least_signalled. Qed.
+Print Assumptions C13_cache_at_least_signalled.
+
+Theorem C13_request_without_cache_lock_refuted :
+  let s := qrun false (cold 2 2) [QR 0; QR 0; QX; QF; QR 0; QR 1] in
+  q_signalled s = 3 /\ nth_error (q_reqs s) 1 = Some (QDone 3 2).
+Proof. exact without_lock_refuted. Qed.
+Print Assumptions C13_request_without_cache_lock_refuted.
